@@ -126,6 +126,7 @@ fn fork_run<F: FnOnce()>(stdin: &[u8], timeout_s: u32, f: F) -> ChildResult {
             libc::close(fout);
             libc::close(ferr);
             libc::close(fext);
+            libc::prctl(libc::PR_SET_PDEATHSIG, libc::SIGKILL);
             libc::alarm(timeout_s);
         }
         let r = catch_unwind(AssertUnwindSafe(f));
@@ -952,6 +953,9 @@ fn optsandbox_child(prog: &str, level: u8) {
 // ---------------------------------------------------------------- main loop
 
 fn main() {
+    unsafe {
+        libc::prctl(libc::PR_SET_PDEATHSIG, libc::SIGKILL);
+    }
     let fin = raw_file(0);
     let fout = raw_file(1);
     let mut rd = BufReader::with_capacity(1 << 16, &*fin);
